@@ -1,7 +1,82 @@
-(* family 12: stub, to be filled *)
+(* family 12: CFDP fixed PDU header (PduHeader, PduConfig, header_len_from_raw). *)
 From Coq Require Import ZArith List Bool.
-From SP Require Import Base.Result Base.Bytes Run.Marshal.
+From SP Require Import Base.Result Base.Bytes Run.Marshal Model.PduHeader Spec.PduHeaderSpec.
 Import ListNotations.
 Open Scope Z_scope.
 
-Definition run_hdr (op : Z) (a : args) : args := [[1; 97]].
+(* case-line encoding of a PduConfig: [src_val; src_len; dst_val; dst_len; seq_val; seq_len]
+   and [mode; large; crc; dir; segctrl]; the three byte fields are built with
+   UnsignedByteField(val, len) in this order. *)
+Definition conf_of_args (ids flags : list Z) : res PduConfig :=
+  do src <- ubf_new (nth 0 ids 0) (nth 1 ids 0);
+  do dst <- ubf_new (nth 2 ids 0) (nth 3 ids 0);
+  do seq <- ubf_new (nth 4 ids 0) (nth 5 ids 0);
+  Ok {| cf_src := src; cf_dst := dst; cf_seq := seq;
+        cf_mode := nth 0 flags 0; cf_large := nth 1 flags 0; cf_crc := nth 2 flags 0;
+        cf_dir := nth 3 flags 0; cf_segctrl := nth 4 flags 0 |}.
+
+Definition conf_ids (c : PduConfig) : list Z :=
+  [ubf_val (cf_src c); ubf_len (cf_src c); ubf_val (cf_dst c); ubf_len (cf_dst c);
+   ubf_val (cf_seq c); ubf_len (cf_seq c)].
+Definition conf_flags (c : PduConfig) : list Z :=
+  [cf_mode c; cf_large c; cf_crc c; cf_dir c; cf_segctrl c].
+
+(* [ptype; meta; dlen] *)
+Definition hdr_of_args (ids flags hd : list Z) : res PduHeader :=
+  do c <- conf_of_args ids flags;
+  hdr_new (nth 0 hd 0) (nth 1 hd 0) (nth 2 hd 0) c.
+
+Definition hdr_fields (h : PduHeader) : args :=
+  [[h_type h; h_meta h; h_dlen h]; conf_ids (h_conf h); conf_flags (h_conf h);
+   [hdr_header_len h; hdr_packet_len h]].
+
+(* a header record straight from field lists, no constructor checks (Spec side) *)
+Definition hdr_raw_of_fields (ids flags hd : list Z) : PduHeader :=
+  {| h_type := nth 0 hd 0; h_meta := nth 1 hd 0; h_dlen := nth 2 hd 0;
+     h_conf := {| cf_src := {| ubf_val := nth 0 ids 0; ubf_len := nth 1 ids 0 |};
+                  cf_dst := {| ubf_val := nth 2 ids 0; ubf_len := nth 3 ids 0 |};
+                  cf_seq := {| ubf_val := nth 4 ids 0; ubf_len := nth 5 ids 0 |};
+                  cf_mode := nth 0 flags 0; cf_large := nth 1 flags 0; cf_crc := nth 2 flags 0;
+                  cf_dir := nth 3 flags 0; cf_segctrl := nth 4 flags 0 |} |}.
+
+Definition hdr_conf_raw (ids flags : list Z) : PduConfig := h_conf (hdr_raw_of_fields ids flags []).
+
+Definition run_hdr (op : Z) (a : args) : args :=
+  match op with
+  (* PduHeader(...) : fields, header_len, packet_len *)
+  | 1200 => ret hdr_fields (hdr_of_args (lst 0 a) (lst 1 a) (lst 2 a))
+  (* PduHeader(...).pack() *)
+  | 1201 => ret (fun b => [b]) (do h <- hdr_of_args (lst 0 a) (lst 1 a) (lst 2 a); hdr_pack h)
+  (* PduHeader.unpack(data) *)
+  | 1202 => ret hdr_fields (hdr_unpack (lst 0 a))
+  (* PduHeader.unpack(data).pack() *)
+  | 1203 => ret (fun b => [b]) (do h <- hdr_unpack (lst 0 a); hdr_pack h)
+  (* AbstractPduBase.header_len_from_raw(data) *)
+  | 1204 => ret (fun r => [[r]]) (header_len_from_raw (lst 0 a))
+  (* PduConfig(...).header_len() *)
+  | 1205 => ret (fun c => [[conf_header_len c]]) (conf_of_args (lst 0 a) (lst 1 a))
+  (* header, then pdu_data_field_len = n : fields, then pack *)
+  | 1206 => ret (fun h => hdr_fields h ++ [match hdr_pack h with Ok b => 0 :: b | Err e => [1; err_code e] end])
+              (do h <- hdr_of_args (lst 0 a) (lst 1 a) (lst 2 a); hdr_set_dlen h (int 3 0 a))
+  (* header, then set_entity_ids(UnsignedByteField(v1,l1), UnsignedByteField(v2,l2)) : fields, pack *)
+  | 1207 => ret (fun h => hdr_fields h ++ [match hdr_pack h with Ok b => 0 :: b | Err e => [1; err_code e] end])
+              (do h <- hdr_of_args (lst 0 a) (lst 1 a) (lst 2 a);
+               do s <- ubf_new (int 3 0 a) (int 3 1 a);
+               do d <- ubf_new (int 3 2 a) (int 3 3 a);
+               hdr_set_entity_ids h s d)
+  (* PduHeader.unpack(data).verify_length_and_checksum(data) *)
+  | 1208 => ret (fun r => [[r]])
+              (do h <- hdr_unpack (lst 0 a); hdr_verify_length_and_checksum h (lst 0 a))
+  (* PduHeader.check_len_in_bytes(n) *)
+  | 1209 => ret (fun r => [[r]]) (check_len_in_bytes (int 0 0 a))
+  (* ByteFieldGenerator.from_bytes(byte_len, stream) *)
+  | 1210 => ret (fun u => [[ubf_val u; ubf_len u]; ubf_as_bytes u]) (bfg_from_bytes (int 0 0 a) (lst 1 a))
+  (* two headers: __eq__ *)
+  | 1211 => ret (fun r => [[r]])
+              (do h1 <- hdr_of_args (lst 0 a) (lst 1 a) (lst 2 a);
+               do h2 <- hdr_of_args (lst 3 a) (lst 4 a) (lst 5 a);
+               Ok (b2z (hdr_eqb h1 h2)))
+  (* Spec side (independent oracle): the layout of a field tuple *)
+  | 1250 => [[0]; hdr_layout (hdr_raw_of_fields (lst 0 a) (lst 1 a) (lst 2 a))]
+  | _ => [[1; 97]]
+  end.
